@@ -1178,10 +1178,11 @@ class TasksRechunk(Rechunk):
         )
         name = self.array.name
         old_chunks = self.array.chunks
+        plan = _plan_token(steps)
         layers = []
         for i, c in enumerate(steps):
             level = len(steps) - i - 1
-            name, old_chunks, layer = _compute_rechunk(name, old_chunks, c, level, self.name)
+            name, old_chunks, layer = _compute_rechunk(name, old_chunks, c, level, self.name, plan)
             layers.append(layer)
 
         return toolz.merge(*layers)
@@ -1207,15 +1208,11 @@ class TasksRechunk(Rechunk):
 
         name = self.array.name
         cur_chunks = old_chunks
+        plan = _plan_token(steps)
         descs = []
         for i, c in enumerate(steps):
             level = len(steps) - i - 1
-            if level != 0:
-                merge_name = self.name.replace("rechunk-merge-", f"rechunk-merge-{level}-")
-                split_name = self.name.replace("rechunk-merge-", f"rechunk-split-{level}-")
-            else:
-                merge_name = self.name
-                split_name = self.name.replace("rechunk-merge-", "rechunk-split-")
+            merge_name, split_name = _step_names(self.name, level, plan)
             descs.append(
                 (
                     name,
@@ -1249,19 +1246,41 @@ def _convert_to_task_refs(obj):
         return obj
 
 
-def _compute_rechunk(old_name, old_chunks, chunks, level, name):
+def _plan_token(steps):
+    """Tag for the intermediate keys of a multi-step plan ("" for a direct rechunk).
+
+    The node's name fixes input and target chunks only.  The steps in between are
+    planned at graph-build time from ``array.rechunk.threshold``/``degree-limit``/
+    ``chunk-size``, so under another configuration the same node yields other
+    intermediates; their keys must differ too, or graphs built under different
+    configuration and merged by key (``to_delayed`` + ``dask.compute``) would
+    substitute one plan's blocks for another's.
+    """
+    if len(steps) <= 1:
+        return ""
+    return tokenize(steps)[:8]
+
+
+def _step_names(name, level, plan=""):
+    """(merge_name, split_name) of the plan step ``level`` steps before the last."""
+    tag = f"{plan}-" if plan else ""
+    if level != 0:
+        merge_name = name.replace("rechunk-merge-", f"rechunk-merge-{level}-{tag}")
+        split_name = name.replace("rechunk-merge-", f"rechunk-split-{level}-{tag}")
+    else:
+        merge_name = name
+        split_name = name.replace("rechunk-merge-", f"rechunk-split-{tag}")
+    return merge_name, split_name
+
+
+def _compute_rechunk(old_name, old_chunks, chunks, level, name, plan=""):
     """Compute the rechunk of *x* to the given *chunks*."""
     ndim = len(old_chunks)
     crossed = intersect_chunks(old_chunks, chunks)
     x2 = {}
     intermediates = {}
 
-    if level != 0:
-        merge_name = name.replace("rechunk-merge-", f"rechunk-merge-{level}-")
-        split_name = name.replace("rechunk-merge-", f"rechunk-split-{level}-")
-    else:
-        merge_name = name.replace("rechunk-merge-", "rechunk-merge-")
-        split_name = name.replace("rechunk-merge-", "rechunk-split-")
+    merge_name, split_name = _step_names(name, level, plan)
     # Split keys are (split_name, *old_index, piece): the source block's
     # coordinate plus a per-source piece counter (mirrors the Rust
     # RechunkLayer) so coordinate-driven ordering sees each split where its
